@@ -2,18 +2,19 @@
 """tools/seed_store.py — copy the confirmed seeded changes from the scratch worktrees under /tmp/seed into
 /verif/seeded/<ID>-<k>/ (patch.diff, demo file(s), notes.md, meta.json)."""
 import json, os, re, shutil, subprocess, sys
-SRC, DST = "/tmp/seed", "/verif/seeded"
+SRC, DST = os.environ.get("SEEDROOT", "/tmp/seed"), "/verif/seeded"
+OFF = int(os.environ.get("SEEDOFFSET", "0"))
 for pid in ["C%02d" % i for i in range(1, 21)]:
     for k in (1, 2):
         d = os.path.join(SRC, pid)
         patch = os.path.join(d, "seed_%d.diff" % k)
         if not os.path.exists(patch):
             continue
-        out = os.path.join(DST, "%s-%d" % (pid, k))
+        out = os.path.join(DST, "%s-%d" % (pid, k + OFF))
         os.makedirs(out, exist_ok=True)
         shutil.copy(patch, os.path.join(out, "patch.diff"))
         demos = subprocess.run(["git", "ls-files", "--others", "--exclude-standard"], cwd=d, capture_output=True, text=True).stdout.split("\n")
-        demo = [x for x in demos if re.search(r"zz_seed.*_%d_demo" % k, x)]
+        demo = [x for x in demos if re.search(r"zz_seed.*_%d_demo" % k, x) or re.search(r"zz_seed.*helper", x)]
         for x in demo:
             os.makedirs(os.path.join(out, "demo", os.path.dirname(x)), exist_ok=True)
             shutil.copy(os.path.join(d, x), os.path.join(out, "demo", x))
@@ -33,8 +34,8 @@ for pid in ["C%02d" % i for i in range(1, 21)]:
             conf["existing_test_suite_with_change"] = "FAIL" if "FAIL" in open(suite).read() else "pass"
         meta_p = os.path.join(out, "meta.json")
         meta = json.load(open(meta_p)) if os.path.exists(meta_p) else {}
-        meta.update({"property": pid, "seed": k, "author": "independent sub-agent given only the property text and a scratch worktree",
+        meta.update({"property": pid, "seed": k + OFF, "round": 2 if OFF else 1, "author": "independent sub-agent given only the property text and a scratch worktree",
                      "files_changed": files, "demo": demo, "confirmed_in_scratch_worktree": conf,
-                     "how_to_run": "git -C /repo apply /verif/seeded/%s-%d/patch.diff && (cd /verif && ./check %s); git -C /repo checkout -- ." % (pid, k, pid)})
+                     "how_to_run": "git -C /repo apply /verif/seeded/%s-%d/patch.diff && (cd /verif && ./check %s); git -C /repo checkout -- ." % (pid, k + OFF, pid)})
         json.dump(meta, open(meta_p, "w"), indent=1)
 print("stored", len(os.listdir(DST)))
